@@ -133,7 +133,10 @@ PROPS["C10"] = dict(
     labels=["C10."],
     kani=[KaniSet("src/data_format/mod.rs", "c10_header.rs", [
         Harness("c10_header_twin", "C10.hdr.twin", "B", "twin of C10.hdr.*: every byte string of length <= 12 that does not reach the msgpack decoder (decoder stubbed; unwind 14, unwinding assertions on)"),
-    ])],
+    ]),
+        KaniSet("src/filters/network_matchers.rs", "c10_wf.rs", [
+            Harness("c10_wf_no_hostname", "C10.wf.no_hostname", "C", "all 2^32 masks x {empty, one-literal} pattern, hostname absent, one fixed request: the four non-regex hostname matchers answer without panicking (string loops bounded by the fixed literals, unwind 10)"),
+        ])],
     trusted=["rmp-serde msgpack decoding (v0::DeserializeFormat::deserialize body)"],
     assumptions=[],
     level_text="Verus proves, for byte slices of any length, that the header/version dispatch never indexes out of bounds and maps each header class to the documented error",
